@@ -15,8 +15,12 @@ Inserted mid-points are compared with the centroid of the edge / face / cell of 
 they belong to* (node table of the real felupe element of the new cell type, under contract in C04), and the
 geometry map of the converted cell is proved identical to the map of the original cell for all xi.
 
-B (bounded, never counted): generators and the float rounding path of merge_duplicate_points, exhaustive
-small scope, run natively.
+Generators Line / Rectangle / Cube / ...ArbitraryOrder... are lifted to symbolic bounds a < b at fixed small
+point counts (P); a few whole sequences are run end to end as instances of the composition lemma.
+
+B (bounded, never counted): Grid / Circle / Triangle generators, the float rounding path of
+merge_duplicate_points, scalar linspace paths at concrete angles, runouts: exhaustive small scope, run
+natively; a failing evaluation raises a refuted obligation with the failing call.
 """
 import itertools
 import warnings
@@ -27,14 +31,14 @@ import felupe as fem
 from felupe import mesh as fm
 from felupe.mesh import _tools as fm_tools
 from vk import cells, oracle, ring, symnp
-from vk.core import Skip, contract
+from vk.core import contract
 from vk.ring import LP, co
 
 cells.install_overrides()
 
 TRUSTED = [
     "C16 lemma (A6, Hoare composition): each operation is proved to establish Inv(result) from Inv(argument) for generic cells; a finite sequence of operations therefore preserves Inv",
-    "C16 lemma (A6): positively oriented simplices on the corners of a convex cell whose chain boundary equals the cell boundary tile the cell (degree argument); used for the triangulate tables on the reference cell, transported by the affine (hexahedron) / bilinear-with-straight-edges (quad) cell map",
+    "C16 lemma (A6): positively oriented simplices on the corners of a convex cell whose chain boundary equals the cell boundary tile the cell (degree argument); checked combinatorially for the triangulate tables on the reference cell; it carries over to every physical cell with planar faces (affine images, prisms from expand, wedges from revolve, convex quads) together with the proved positive orientation and volume sum of the sub-cells on those cells; a warped trilinear hexahedron is not tiled exactly by tetrahedra (geometry, not a defect)",
     "C16 lemma (A6): a quadratic / Lagrange cell whose additional nodes are the images of the reference nodes under the (multi)linear corner map has the geometry map of the linear cell (proved per element where felupe has an element class; for triangle7/tetra14/tetra15/hexahedron26 only the centroid clauses are proved)",
     "C16: cos^2+sin^2=1 of the trig atoms is applied on the spec side (vk.cells.trig_reduce); math.rotation_matrix is under contract in C17",
     "C16: np.isscalar(ring element) is True (a ring element stands for a float scalar, A1)",
@@ -315,6 +319,20 @@ def spec(vk, cfg):
     for ct, E in (("line", fem.element.Line), ("triangle", fem.element.Triangle), ("quad", fem.element.Quad), ("tetra", fem.element.Tetra), ("hexahedron", fem.element.Hexahedron)):
         vk.ensures_eq(f"reference-corners=={E.__name__}.points", np.asarray(E().points, dtype=float), REFP[ct])
     vk.canary("quad-area==one-triangle", cells.volume("quad", Q), cells.volume("triangle", Q[[0, 1, 2]]))
+    if vk.sym:
+        # shim validation: the exact np.unique(axis=0) reference against numpy on random rows with repetitions
+        rs = np.random.RandomState(1)
+        ok, n = True, 0
+        for k in range(20):
+            A = rs.randint(0, 3, (rs.randint(1, 12), rs.randint(1, 4))).astype(float)
+            with symnp.native():
+                want = np.unique(A, True, True, True, axis=0)
+            got = cells.unique_rows_ref(ring.lift(A), True, True, True, axis=0)
+            ok = ok and np.array_equal(np.array([[float(x) for x in r] for r in got[0]]).reshape(want[0].shape), want[0]) and all(np.array_equal(np.ravel(g), np.ravel(w)) for g, w in zip(got[1:], want[1:]))
+            n += 1
+        vk.bounded_standin("np.unique(axis=0) reference == numpy (shim validation)", "20 random integer-valued row sets", n, ok)
+        if not ok:
+            raise AssertionError("unique_rows_ref disagrees with np.unique")
 
 
 # ================================================================================================ rigid maps
@@ -451,6 +469,30 @@ def rigid(vk, cfg):
 
 # ================================================================================================ triangulate
 TRI_CFG = [dict(ct="quad", mode=3), dict(ct="hexahedron", mode=0), dict(ct="hexahedron", mode=3), dict(ct="hexahedron", mode=1)]
+# the planar-faced hexahedra produced by expand (prism over a generic quad) and revolve (wedge between two
+# meridian planes): needed to compose triangulate after these operations
+TRI_CFG += [dict(ct="hexahedron", mode=m, shape=sh) for m in (0, 3) for sh in ("prism", "wedge")]
+
+
+def swept_mesh(vk, shape):
+    """two hexahedra swept from two generic quads: prism (translated copy) or wedge (rotated copy)"""
+    q = make_mesh(vk, "quad", 2, offset=2.5)
+    P, n = q.points, len(q.points)
+    if shape == "prism":
+        z0 = vk.real_scalar("z0", near=0.1, spread=0.3)
+        d = vk.real_scalar("d", near=0.9, spread=0.3)
+        vk.requires(d, ">")
+        lo = np.array([[p[0], p[1], z0] for p in P])
+        hi = np.array([[p[0], p[1], z0 + d] for p in P])
+    else:
+        a, c, s = angle(vk, "phi", near=50.0, spread=30.0)
+        vk.requires(s, ">")
+        for p in P:
+            vk.requires(p[1], ">")
+        lo = np.array([[p[0], p[1], 0 * p[0]] for p in P])
+        hi = np.array([[p[0], p[1] * c, p[1] * s] for p in P])
+    return fem.Mesh(np.vstack([lo, hi]), np.hstack([q.cells, q.cells + n]), "hexahedron")
+
 
 
 def parent_of(sub, parents):
@@ -466,7 +508,8 @@ def triangulate(vk, cfg):
     ct, mode = cfg["ct"], cfg["mode"]
     vk.real(fm.triangulate)
     vk.real(fem.Mesh.triangulate)
-    mesh = make_mesh(vk, ct, 2, shape="generic" if ct == "quad" else "affine")
+    shape = cfg.get("shape", "generic" if ct == "quad" else "affine")
+    mesh = swept_mesh(vk, shape) if shape in ("prism", "wedge") else make_mesh(vk, ct, 2, shape=shape)
     s0 = snap(vk, mesh)
     if mode not in (0, 3):
         try:
@@ -483,9 +526,9 @@ def triangulate(vk, cfg):
     vk.ensures_eq(nm + "/points-unchanged", new.points, mesh.points)
     parents = [parent_of(s, mesh.cells) for s in new.cells]
     ensures_same(vk, nm + "/every-sub-cell-uses-corners-of-one-parent", all(p is not None for p in parents), True)
-    Vs = vols(new)
+    Vs = tr(vk, vols(new))
     ensures_pos(vk, nm + "/sub-cell-positively-oriented", Vs)
-    Vp = vols(mesh)
+    Vp = tr(vk, vols(mesh))
     for c in range(len(mesh.cells)):
         mine = [k for k, p in enumerate(parents) if p == c]
         vk.ensures_eq(nm + f"/sum-of-sub-volumes==parent-volume/cell={c}", sum(Vs[k] for k in mine), Vp[c])
@@ -507,8 +550,12 @@ EXP_CFG = (
     + [dict(op="expand", ct="quad", variant="n=1")]
     + [dict(op="revolve", ct="line", variant="open"), dict(op="revolve", ct="line", variant="closed"), dict(op="revolve", ct="vertex", variant="open")]
     + [dict(op="revolve", ct="quad", variant="open", axis=0), dict(op="revolve", ct="quad", variant="open", axis=1)]
+    # axis=1: the orientation / volume clauses on the positive side are an open known finding; everything else
+    # about that call, and the same clauses on the negative side of the axis, are separate configs
+    + [dict(op="revolve", ct="quad", variant="open", axis=1, part="structure"), dict(op="revolve", ct="quad", variant="open", axis=1, side="negative")]
     + [dict(op="revolve", ct="quad", variant="closed", axis=0), dict(op="revolve", ct="quad", variant="phiscalar", axis=0), dict(op="revolve", ct="line", variant="phiscalar")]
     + [dict(op="fill_between", ct=ct) for ct in ("line", "quad")]
+    + [dict(op="revolve-embedded", ct="line")]
 )
 
 
@@ -611,9 +658,12 @@ def extrude(vk, cfg):
         vk.real(fm.revolve)
         vk.real(fem.Mesh.revolve)
         vk.real(fem.math.rotation_matrix)
-        base = base_mesh(vk, ct, offset=2.5)
-        s0 = snap(vk, base)
         axis = cfg.get("axis", 0)
+        negative = cfg.get("side") == "negative"
+        part = cfg.get("part", "all" if not (ct == "quad" and axis == 1 and variant == "open" and not negative) else "measure")
+        off = 2.5 if not negative else np.array([-4.5 if i == 1 - axis else 2.5 for i in range(2)])
+        base = base_mesh(vk, ct, offset=off)
+        s0 = snap(vk, base)
         closed = variant == "closed"
         # meridian angles 0 < phi1 < phi2 (< 360 closing): increments in (0, 180) <=> sin(increment) > 0
         a1, c1, s1 = angle(vk, "phi1", near=50.0, spread=25.0)
@@ -639,20 +689,25 @@ def extrude(vk, cfg):
         dimb = P.shape[1]
         # the section lies on the positive side of the axis of revolution
         arm = 0 if dimb == 1 else (1 - axis)
+        sgn = -1 if negative else 1
         if ct == "quad":
             for p in P:
-                vk.requires(p[arm], ">")
+                vk.requires(sgn * p[arm], ">")
         new = base.revolve(phi=phis[-1], axis=axis, n=3) if scalar else base.revolve(phi=np.array(phis), axis=axis, n=9)
-        ensures_same(vk, nm + "/cell_type", new.cell_type, new_ct)
-        pad = np.hstack([P, 0 * P[:, :1]])
-        layers = [matvec(rot_spec(vk, dimb + 1, axis if dimb == 2 else 0, C[k], S[k]), pad) for k in range(len(phis))]
-        if closed:
-            layers[-1] = layers[0]
-        ok, why = layer_cells_ok(vk, new, base, layers)
-        vk.ensures_true(nm + "/cells-span-consecutive-meridian-planes", ok, why)
-        ensures_same(vk, nm + "/npoints", len(new.points), (len(phis) - (1 if closed else 0)) * len(P))
-        no_unused(vk, nm, new)
-        frame(vk, nm, base, s0)
+        if part in ("all", "structure"):
+            ensures_same(vk, nm + "/cell_type", new.cell_type, new_ct)
+            pad = np.hstack([P, 0 * P[:, :1]])
+            layers = [matvec(rot_spec(vk, dimb + 1, axis if dimb == 2 else 0, C[k], S[k]), pad) for k in range(len(phis))]
+            if closed:
+                layers[-1] = layers[0]
+            ok, why = layer_cells_ok(vk, new, base, layers)
+            vk.ensures_true(nm + "/cells-span-consecutive-meridian-planes", ok, why)
+            ensures_same(vk, nm + "/npoints", len(new.points), (len(phis) - (1 if closed else 0)) * len(P))
+            no_unused(vk, nm, new)
+            frame(vk, nm, base, s0)
+        if part == "structure":
+            vk.canary("revolve-keeps-the-section-in-its-plane", new.points[len(P) :, 2], 0 * new.points[len(P) :, 2])
+            return
         if ct == "vertex":
             return  # a curve in the plane: no signed measure
         Vn = tr(vk, vols(new))
@@ -662,11 +717,34 @@ def extrude(vk, cfg):
             M = [cells.first_moment(P[c], arm) for c in base.cells]
         # cells are ordered layer by layer (checked above up to order): compare as totals per layer pair
         tot = sum(Vn)
-        vk.ensures_eq(nm + "/covered-volume==sum sin(dphi)*first-moment", tot, tr(vk, sum(dsin) * sum(M)))
+        vk.ensures_eq(nm + "/covered-volume==sum sin(dphi)*first-moment", tot, tr(vk, sgn * sum(dsin) * sum(M)))
         ensures_pos(vk, nm + "/cell-volume-positive", Vn)
         if ct == "line":
             ensures_pos(vk, nm + "/corner-jacobians-positive", tr(vk, cjac(new)))
         vk.canary("revolved-volume==pappus-with-angle-in-degree", tot, sum(M) * phis[-1])
+    elif op == "revolve-embedded":
+        # expand_dim=False: a line mesh embedded in the plane is rotated in its plane about the origin
+        vk.real(fm.revolve)
+        base = make_mesh(vk, "line", 2, embed=1, offset=2.5, valid=False)
+        P = base.points
+        s0 = snap(vk, base)
+        a1, c1, s1 = angle(vk, "phi1", near=50.0, spread=25.0)
+        vk.requires(s1, ">")
+        r2 = [sum(p * p) for p in P]
+        for c in base.cells:
+            vk.requires(r2[c[1]] - r2[c[0]], ">")  # the section runs outwards: radius increases along each cell
+        new = base.revolve(phi=np.array([0 * a1, a1]), expand_dim=False)
+        nm = "revolve/line/expand_dim=False"
+        ensures_same(vk, nm + "/cell_type", new.cell_type, "quad")
+        layers = [P, matvec(rot_spec(vk, 2, 0, c1, s1), P)]
+        ok, why = layer_cells_ok(vk, new, base, layers)
+        vk.ensures_true(nm + "/cells-span-consecutive-layers", ok, why)
+        Vn = tr(vk, vols(new))
+        vk.ensures_eq(nm + "/area==sin(phi)*(r1^2-r0^2)/2", Vn, np.array([s1 * (r2[c[1]] - r2[c[0]]) / 2 for c in base.cells]))
+        ensures_pos(vk, nm + "/cell-area-positive", Vn)
+        no_unused(vk, nm, new)
+        frame(vk, nm, base, s0)
+        vk.canary("embedded-revolve-area==phi", sum(Vn), a1 + 0 * s1)
     else:
         fill_between(vk, cfg)
 
@@ -798,8 +876,6 @@ def midpoints(vk, cfg):
     mesh = make_mesh(vk, ct, 2)
     P0, C0 = mesh.points, mesh.cells
     s0 = snap(vk, mesh)
-    n0 = cells.NCORNER[ct]
-    ent = sub_entities(ct)
     if stage == "convert":
         for kw in (dict(order=2), dict(order=2, calc_midfaces=True), dict(order=2, calc_midfaces=True, calc_midvolumes=True)):
             if kw.get("calc_midvolumes") and ct in ("triangle", "quad"):
